@@ -29,12 +29,15 @@ Verdicts(r) ==
   ELSE IF Has(o, "budget") THEN {V("budget", "scan")}
   ELSE
   LET T == o.toks
-      ML == Lex(inp).toks
+      \* inputs of several KB (Gen_c05b, marked long): the design spec is not run on them (it is exercised on the short inputs);
+      \* a named position deviation is then recognised by its shape alone
+      long == Has(r, "long")
+      ML == IF long THEN <<>> ELSE Lex(inp).toks
       mapped == \A j \in 1..Len(T) : T[j].s >= 0 /\ T[j].e >= 0
   IN
   IF ~mapped \/ ~Tiles(inp, T) THEN {V("tiling", IF Len(T) = 0 THEN "none" ELSE T[Len(T)].tok)}
   ELSE
-  LET Agrees(j) == j <= Len(ML) /\ Key(ML[j]) = Key(T[j])
+  LET Agrees(j) == long \/ (j <= Len(ML) /\ Key(ML[j]) = Key(T[j]))
       PosV(j) == LET t == T[j] IN
          IF PosExact(inp, t) THEN {}
          ELSE IF ShapeEOFLate(inp, t) /\ Agrees(j) THEN {V("Dev_EOFPosLate", "")}
@@ -47,18 +50,46 @@ Verdicts(r) ==
                                               /\ o.after[k].line = o.after[1].line /\ o.after[k].char = o.after[1].char
                 /\ \/ [l |-> o.after[1].line, c |-> o.after[1].char] = LineCol(inp, Len(inp))
                    \/ [l |-> o.after[1].line, c |-> o.after[1].char] = [LineCol(inp, Len(inp)) EXCEPT !.c = @ + 1]
-      drift == IF Len(ML) = Len(T) /\ \A j \in 1..Len(T) : Key(ML[j]) = Key(T[j]) THEN {} ELSE {V("drift:tokens", "")}
+      drift == IF long \/ (Len(ML) = Len(T) /\ \A j \in 1..Len(T) : Key(ML[j]) = Key(T[j])) THEN {} ELSE {V("drift:tokens", "")}
       all == UNION {PosV(j) : j \in 1..Len(T)}
              \cup (IF sticky THEN {} ELSE {V("eof-not-sticky", "")})
              \cup (IF o.maxn <= 2 THEN {} ELSE {V("ring-overflow", "")})
   IN IF all = {} THEN drift ELSE all
+
+\* ---- padded inputs (Gen_c05b): every long scan is the short scan shifted
+LongVerdicts(r) ==
+  LET o == r.obs IN
+  IF ~Has(o, "longs") \/ ~Has(o, "toks") THEN {}
+  ELSE
+  LET T == o.toks
+      pad == LineCol(r.inp, r.padat)
+      Sh(x, D) == IF x <= r.padat THEN x ELSE x + D
+      ShC(line, char, D) == IF line = pad.l /\ char > pad.c THEN char + D ELSE char
+      Covers(t) == t.s <= r.padat /\ r.padat < t.e
+      LitLen(t) == Len(t.lit)
+      OneOK(L) ==
+        LET D == L.k - 1 U == L.toks IN
+        /\ ~Has(L, "panic") /\ ~Has(L, "budget")
+        /\ Len(U) = Len(T)
+        /\ \A j \in 1..Len(T) :
+             /\ U[j].tok = T[j].tok
+             /\ U[j].s = Sh(T[j].s, D) /\ U[j].e = Sh(T[j].e, D)
+             /\ U[j].line = T[j].line /\ U[j].char = ShC(T[j].line, T[j].char, D)
+             /\ U[j].n = LitLen(T[j]) + (IF Covers(T[j]) /\ LitLen(T[j]) > 0 THEN D ELSE 0)
+        /\ (Has(o, "after") /\ Has(L, "after")) =>
+             /\ Len(L.after) = Len(o.after)
+             /\ \A k \in 1..Len(o.after) : /\ L.after[k].tok = o.after[k].tok /\ L.after[k].e = Sh(o.after[k].e, D)
+                                            /\ L.after[k].line = o.after[k].line
+                                            /\ L.after[k].char = ShC(o.after[k].line, o.after[k].char, D)
+        /\ L.maxn <= 2
+  IN {V("long-input-differs", "run of " \o ToString(L.k)) : L \in {o.longs[i] : i \in {j \in 1..Len(o.longs) : ~OneOK(o.longs[j])}}}
 
 NonTrivial(r) == Has(r.obs, "toks") /\ Len(r.obs.toks) >= 3
 
 Init == l = 1 /\ nt = 0
 Step == /\ l <= Len(Trace)
         /\ LET r == Trace[l] IN
-             /\ \A v \in Verdicts(r) : CSVWrite("%1$s", <<ToJson([id |-> r.id, class |-> v.class, sig |-> v.sig])>>, IOEnv.VERDICT_FILE)
+             /\ \A v \in Verdicts(r) \cup LongVerdicts(r) : CSVWrite("%1$s", <<ToJson([id |-> r.id, class |-> v.class, sig |-> v.sig])>>, IOEnv.VERDICT_FILE)
              /\ nt' = nt + (IF NonTrivial(r) THEN 1 ELSE 0)
         /\ l' = l + 1
 Finish == /\ l = Len(Trace) + 1
